@@ -2,7 +2,10 @@
 
 package configmigrate
 
-import "fmt"
+import (
+	"fmt"
+	"strings"
+)
 
 // valueDocs (round 6): the value layer of the shared generator
 // (zz_verif_C13_valid.go) under the frame and value monitors.  For every
@@ -62,5 +65,73 @@ func (h *c13H) valueDocs() {
 				h.mig(body, top, h.last, fmt.Sprintf("version %d, nothing but the ports %+v", ver, q), cls)
 			}
 		}
+	}
+}
+
+// upstreamDocs (round 7): the grammar of upstream lines
+// (VerifC13UpstreamGrammar: every upstream shape with and without a
+// "[/domain/.../]" prefix, "[/d/]#", comments) in dns.upstream_dns and
+// dns.local_ptr_upstreams of the full valid document and of a document
+// holding nothing else, for every historical version; the lines one at a
+// time below version 10, where step 10 runs.  The value monitor of step 10
+// judges every line (new = old, except that quic:// without a port gets :784
+// inside its prefix), and each line is one case CQuic: the model of
+// addQUICPort's prefix handling (Model/MigrateQuic.v) with the real function
+// on the part after the prefix as its core.
+func (h *c13H) upstreamDocs() {
+	defaults := VerifC13DefaultsMap()
+	for ver := 0; ver < int(h.last); ver++ {
+		cls := []string{fmt.Sprintf("cm-upstreams-v%d", ver), "cm-upstreams"}
+		lines := VerifC13UpstreamGrammar(ver)
+		rev := make([]any, len(lines))
+		for i := range lines {
+			rev[len(lines)-1-i] = lines[i]
+		}
+		name := "dns"
+		if ver <= 1 {
+			name = "coredns"
+		}
+		cl := make([]any, VerifC13Shapes)
+		for x := range cl {
+			cl[x] = VerifC13Client(ver, x, x)
+		}
+		doc := VerifC13WithDefaults(ver, VerifC13Doc(ver, cl, false), defaults)
+		doc[name].(map[string]any)["upstream_dns"], doc[name].(map[string]any)["local_ptr_upstreams"] = lines, rev
+		small := yobj{"schema_version": ver, name: yobj{"upstream_dns": rev, "local_ptr_upstreams": lines}}
+		if ver == 0 {
+			delete(small, "schema_version")
+		}
+		for i, d := range []yobj{doc, small} {
+			if i == 0 && !h.out.Thorough() && ver%3 != int(h.out.Seed)%3 && ver != 9 {
+				continue
+			}
+			body := c13Marshal(d)
+			if top, err := c13Parse(body); err == nil {
+				h.mig(body, top, h.last, fmt.Sprintf("version %d, the grammar of upstream lines in upstream_dns and local_ptr_upstreams", ver), cls)
+			}
+		}
+	}
+	// the function itself, line by line (the version-9 spelling)
+	for _, l := range VerifC13UpstreamGrammar(9) {
+		s := l.(string)
+		got := addQUICPort(s, 784)
+		pre := c13DomainPrefix(s)
+		rest := s[len(pre):]
+		core := "None"
+		if r := addQUICPort(rest, 784); r != rest {
+			core = "(Some " + c13Str(r) + ")"
+		}
+		want, known := c13Quic(s)
+		ok, msg := true, ""
+		if known && got != want {
+			ok, msg = false, fmt.Sprintf("addQUICPort(%q) is %q: the documented result is %q", s, got, want)
+		} else if !strings.HasPrefix(got, pre) {
+			ok, msg = false, fmt.Sprintf("addQUICPort(%q) is %q: the domain prefix %q is not kept", s, got, pre)
+		}
+		if known {
+			h.out.Class("cm-upstream-line-judged")
+		}
+		h.emit(vfApp("C13.CQuic", c13Str(s), c13Str(rest), core, c13Str(got)), got != s, []string{"cm-upstream-line"}, ok, msg, "value-step10",
+			map[string]any{"what": "addQUICPort on one upstream line", "line": s})
 	}
 }
